@@ -16,7 +16,7 @@ CHECKS = {
              "and check_thm_type/checked_get_type are proved to implement the typing judgement. Soundness of the "
              "schemas themselves is a cited assumption.",
         note="Trusted: pyvc VC generator, z3; schemas of spec/thm.py are the sound HOL rules (A1); signature "
-             "conformance of constants/types (A1b). Thm.substitution not yet under contract.",
+             "conformance of constants/types (A1b). Thm.substitution is not under contract (bounded stand-in c01_substitution).",
         technique="contract-based deductive verification (own ast->z3 VC generator, induction via contracts, "
                   "z3 5.1), native replay of counterexamples",
         design='4 C01'),
@@ -84,8 +84,8 @@ CHECKS['C20'] = dict(
          "rule of compute_wp right). Program-level soundness of compute_wp/get_vcs against execution and the "
          "print/parse agreement of conditions are covered by a bounded stand-in only (random annotated programs, "
          "own interpreter) - labelled bounded.",
-    note="Trusted: pyvc, z3; expression semantics of spec/imp.py. Forall expressions excluded. Known finding: "
-         "Op.__str__/cond_parser parenthesisation (recorded, not repaired). HOL side (eval_Sem, vcg) not covered.",
+    note="Trusted: pyvc, z3; expression semantics of spec/imp.py. Forall expressions excluded. Findings "
+         "repaired: Op.__str__ / cond_parser parenthesisation and precedence. HOL side (eval_Sem, vcg) not covered.",
     technique="contract-based deductive verification with behavioural subtyping (virtual contract on Expr.subst, "
               "ast->z3, induction), bounded run-time contract on compute_wp",
     design='4 C20')
@@ -124,12 +124,12 @@ _bounded('C07',
          "Bounded stand-in (not a proof): generated well-typed terms over the theory real are printed (ASCII and "
          "Unicode, two line widths, cold and after other terms) and parsed back; types and sequents likewise.",
          "No deductive part: the parser is a Lark table generated from a grammar string. Instantiations and exported "
-         "proof steps are not exercised yet.", '4 C07')
+         "proof steps are not exercised.", '4 C07')
 _bounded('C09',
          "Bounded stand-in (not a proof): first_order_match on generated first-order and higher-order patterns "
          "against instances and unrelated targets: the result instantiates the pattern to the target up to "
          "beta-eta, extends the given instantiation, leaves the caller's object untouched; first-order completeness.",
-         "No deductive part yet (closures mutating a shared Inst).", '4 C09')
+         "No deductive part (closures mutating a shared Inst).", '4 C09')
 _bounded('C10',
          "Bounded stand-in (not a proof): conversions (nat/real/propositional normalisers, traversal combinators "
          "with rewrite rules) on generated terms: equation about the given term, no hypotheses, exported proof "
